@@ -562,6 +562,16 @@ class NDNApp:
         self.face.send(raw_interest)
         return self._wait_for_data(future, deadline, node_name, node)
 
+    def _remove_pending(self, future: aio.Future, node_name, node):
+        # Drop a finished Interest from the table. The node is deleted only if it is still the one registered
+        # under node_name: it may have been removed (and replaced) while this Interest was waiting.
+        if node.timeout(future):
+            try:
+                if self._pit[node_name] is node:
+                    del self._pit[node_name]
+            except KeyError:
+                pass
+
     async def _wait_for_data(self, future: aio.Future, deadline: int, node_name: enc.FormalName,
                              node: InterestTreeNode):
         lifetime = deadline - utils.timestamp()
@@ -572,10 +582,10 @@ class NDNApp:
         try:
             data_name, content, pkt_context = await aio.wait_for(future, timeout=lifetime/1000.0)
         except TimeoutError:
-            if node.timeout(future):
-                del self._pit[node_name]
+            self._remove_pending(future, node_name, node)
             raise types.InterestTimeout()
         except aio.CancelledError:
+            self._remove_pending(future, node_name, node)
             raise types.InterestCanceled()
         # ValidationError, InterestNack are passed to the parent caller
         return data_name, content, pkt_context
